@@ -141,6 +141,16 @@ def oracle_files(c, sc, out):
         c.violation("C05:rerun-after-success", "the body of the job began again after it had succeeded", data)
         verdict = "violation"
     nb = cases.count_begins(rows, 1)
+    if not sc.get("pre") and not m.get("real_first"):
+        # no marker before the scenario: nobody may report DONE before a body has ended successfully
+        first_ok = next((r["i"] for r in cases.body_rows(rows, 1) if r["kind"] == "end" and r["res"] == "ok"), None)
+        for r in rows:
+            if r["who"] != "P" and r["kind"] == "R" and r["rest"][:2] == ["aio_submit", "1"] and r["rest"][-1] == "ret=DONE":
+                if first_ok is None or r["i"] < first_ok:
+                    key = ("C05:done-without-marker-truncated-script" if m.get("truncated") else "C05:done-before-success")
+                    c.violation(key, f"{r['who']} reported the job DONE before any body had ended successfully "
+                                "(its job process exited 0 without running)", data)
+                    verdict = "violation"
     if m["family"] == "done-marker":
         want = 1 if m["real_first"] else 0
         later = [r for r in sc["runs"] if r["sid"] != "S9"]
@@ -189,11 +199,15 @@ def gen_scenarios(c, nref, n_spawn, n_lock):
     if n_lock:
         for i in range(3 if c.quick else 30):
             scs.append(cases.sc_double(f"w{i:04d}", n_lock, rng.choice([2, 2, 3]), rng.choice([0.0, 0.1, 0.3]), rng.random() < 0.25))
+    # a job process reads its script while another scheduler is writing it
+    if n_lock:
+        for i in range(1 if c.quick else 6):
+            scs.append(cases.sc_truncated(f"t{i:04d}", n_lock, n_spawn))
     # a scheduler killed right after Popen (before / while / after the pid file is written), then others arrive
     for i in range(4 if c.quick else 40):
         scs.append(cases.sc_orphan(f"o{i:04d}", n_spawn + (i % 4), rng.choice([1, 1, 2]), round(rng.uniform(0.2, 1.0), 2),
                                    rng.choice([0.0, 0.1])))
-    fam_rank = lambda sc: 0 if sc["meta"].get("double") or sc["meta"].get("orphan") else 1  # noqa
+    fam_rank = lambda sc: 0 if sc["meta"].get("double") or sc["meta"].get("orphan") or sc["meta"].get("truncated") else 1  # noqa
     if not c.quick:
         rng.shuffle(scs)
     scs.sort(key=fam_rank)
